@@ -49,6 +49,14 @@ def registered (evs : List Ev) (k : Nat) : Option Nat :=
   | .add _ keys inst :: rest => if keys.contains k then some inst else registered rest k
   | .remove m :: rest => if ownerOf k = m then none else registered rest k
 
+/-- A call as the wire sees it (`Exchange.exchange`, Props/C13d): the table is the registry, the registered instance answers with
+its own number; `ServiceUnavailable` is what an unknown path gets. -/
+def wireCall (reg : Registry) (k : Nat) : Option Nat :=
+  let H : Nat → Handler := fun inst => ⟨4, 4, fun _ => .ok (le32 inst)⟩
+  match exchange (fun _ => (getHandler reg k).map H) [47] 4 4 (mkFrame [0, 0, 0, 0]) [1] [1] with
+  | (.reply r, [_]) => some (fromLe32 r)
+  | _ => none
+
 def showCall : Option Nat → String
   | some inst => s!"ok:{inst}"
   | none => "unavailable"
@@ -93,7 +101,7 @@ def step (st : State) (toks : List String) : State × String :=
   | ["call", s, m] =>
     match svcName s, keyOf s m with
     | some _, some k =>
-      (st, showCall (getHandler st.reg k) ++ "\t#spec " ++ showCall (registered st.evs k))
+      (st, showCall (wireCall st.reg k) ++ "\t#spec " ++ showCall (registered st.evs k))
     | _, _ => (st, "bad-op")
   | ["status-bytes", code, hm] =>
     -- the frame a handler error travels in, byte for byte (`Exchange.archive`: the rkyv layout of `Status`), and what the client
